@@ -238,7 +238,9 @@ class CallMixin:
                 for t, v in enumerate(vals):
                     keep = z3.Select(dst_arr, bv(do + t, 64))
                     dst_arr = z3.Store(dst_arr, bv(do + t, 64), z3.If(z3.ULT(bv(t, 64), cnt), v, keep))
-            elif cc is not None and cc <= SMALL_COPY:
+            elif cc is not None and cc <= SMALL_COPY and concrete(doff) is not None:
+                # (literal destination offsets: element stores; a symbolic destination is one range update -- a later read
+                #  then costs one range test instead of `cc` index disequalities)
                 vals = [self.select(src_arr, soff + bv(i, 64), sr.id) for i in range(cc)]
                 for i, v in enumerate(vals):
                     self._put(dr, doff + bv(i, 64), v)
